@@ -28,7 +28,7 @@ def gen(rng, n):
             lay.tree.append(['f', lay.top2('/vol1'), 'blocker'])
         else:
             lay = scen.Layout(rng, nested=False)
-        s, m = putlib.gen_put(rng, nargs=rng.randint(1, 2), allow_dots=False, allow_missing=False, allow_mount=False, options=False, layout=lay,
+        s, m = putlib.gen_put(rng, nargs=rng.randint(1, 2), allow_dots=False, allow_missing=False, allow_mount=(rng.random() < 0.3), options=False, layout=lay,
                               allow_bad_utf8=False)
         if fb:
             s['steps'][0]['argv'] = ['--home-fallback'] + s['steps'][0]['argv']
@@ -39,10 +39,10 @@ def gen(rng, n):
     return scns, metas
 
 
-def judge_crash(run, scn, meta, before, k, nmut, res, section):
+def judge_crash(run, scn, meta, before, k, nmut, res, section, plan=None):
     o = res['steps'][0]
     snap = o['after']
-    case = {'scenario': scn, 'crash_point': k, 'of': nmut}
+    case = {'scenario': scn, 'crash_point': k, 'of': nmut, 'args': meta['args'], 'plan': plan}
     run.count(section)
     # (1) every payload under files/ has a complete parseable info
     for td in engine.trash_dirs_in(snap):
@@ -63,7 +63,14 @@ def judge_crash(run, scn, meta, before, k, nmut, res, section):
         orig = sandbox.subtree(before, ent)
         if not orig:
             continue
-        at_origin = putlib.loose(sandbox.subtree(snap, ent)) == putlib.loose(orig)
+        now_there = sandbox.subtree(snap, ent)
+        if a['kind'] == 'mount':
+            # a mount point contains its own trash directories, where trash-put may create directories and a .trashinfo it removes
+            # again: the entry proper is everything else
+            def proper(t):
+                return {p: v for p, v in t.items() if not any(seg == '.Trash' or seg.startswith('.Trash-') for seg in p.split('/')[1:2])}
+            now_there, orig = proper(now_there), proper(orig)
+        at_origin = putlib.loose(now_there) == putlib.loose(orig)
         in_trash = False
         for td in engine.trash_dirs_in(snap):
             for name, e in engine.entries_of(snap, td).items():
@@ -106,6 +113,7 @@ def sweep(run, scn, meta, section='crash', max_points=None):
 
 
 def run(run, thorough):
+    import random as _random_mod
     scns, metas = gen(run.rng, 120 if not thorough else 1500)
     out = engine.run_all(run, 'uninterrupted', scns)
     jobs = [('put', 'x', res['steps'][0], {'scenario': scn}) for scn, res in out]
@@ -116,6 +124,38 @@ def run(run, thorough):
         putlib.conservation(run, scn, by_id[id(scn)], res, 'final-state')
     for scn, meta in zip(scns, metas):
         sweep(run, scn, meta, max_points=None if thorough else 45)
+    # directed: the home trash directory is a symbolic link to a directory on ANOTHER volume.  The same-volume rule must look at
+    # where the trash directory really is: then the entry goes to its own volume's trash directory by one rename, and a refused
+    # system call (every k, ENOSPC) leaves either everything or nothing; a copying move into the far directory would not
+    lay = scen.Layout(_random_mod.Random(7), home_on_own_volume=False, nvols=1, nested=False, xdg='unset', uid=0)
+    nodes = [['d', '/vol1/realtrash', 0o700], ['l', lay.home_trash, '/vol1/realtrash'], ['d', lay.home + '/proj', 0o755],
+             ['f', lay.home + '/proj/a', 'a'], ['d', lay.home + '/proj/sub', 0o755], ['f', lay.home + '/proj/sub/b', 'b'], ['f', lay.home + '/proj/c', 'c']] + scen.canary()
+    lay.tree = [e for e in lay.tree if not (e[1] == lay.home_trash or e[1].startswith(lay.home_trash + '/'))]
+    scn = lay.scenario([{'cmd': 'put', 'argv': ['--', lay.home + '/proj'], 'now': [2024, 5, 6, 7, 8, 9, 0]}], cwd='/', extra=nodes)
+    meta = {'args': [{'arg': lay.home + '/proj', 'kind': 'd', 'entry': lay.home + '/proj', 'expect': 'trash'}], 'fallback': False}
+    base = sweep(run, scn, meta, section='far-home-trash')
+    if base is not None:
+        nmut = base['steps'][0].get('nmut', 0)
+        fs = []
+        for k in range(1, nmut + 1):
+            s2 = copy.deepcopy(scn)
+            s2['steps'][0]['plan'] = {'sysfault': [k, 28]}
+            fs.append(s2)
+        for k, r in zip(range(1, nmut + 1), sandbox.execute_many(fs) if fs else []):
+            if r.get('steps'):
+                judge_crash(run, scn, meta, base['before'], k, nmut, r, 'far-home-trash', plan={'sysfault': [k, 28]})
+    # directed: a mount point, named absolutely and relative to the working directory.  rename(2) of a mount point is EBUSY, so a
+    # trash-put that does not refuse it degrades to copy + delete of its contents; complete run and every crash point are judged
+    for spelled in ['vol1', './vol1', 'vol1/', '/vol1', '/vol1/', '../vol1']:
+        lay = scen.Layout(_random_mod.Random(5), home_on_own_volume=False, nvols=1, nested=False, xdg='unset', uid=0)
+        nodes = [['d', '/vol1/data', 0o755], ['f', '/vol1/data/x', 'x on the volume'], ['f', '/vol1/keep_me', 'k']] + scen.canary()
+        scn = lay.scenario([{'cmd': 'put', 'argv': ['--', spelled], 'now': [2024, 5, 6, 7, 8, 9, 0]}], cwd=('/' if spelled != '../vol1' else lay.home.rsplit('/', 1)[0] if lay.home.count('/') == 2 else '/'), extra=nodes)
+        if spelled == '../vol1' and scn['cwd'] == '/':
+            continue
+        meta = {'args': [{'arg': spelled, 'kind': 'mount', 'entry': '/vol1', 'expect': 'refuse-untouched'}], 'fallback': False}
+        base = sweep(run, scn, meta, section='mount-point')
+        if base is not None:
+            judge_crash(run, scn, meta, base['before'], None, base['steps'][0].get('nmut', 0), base, 'mount-point')
     if scns:
         run.sample({'level': 'crash', 'argv': [esc(a) for a in scns[0]['steps'][0]['argv']], 'fallback': metas[0].get('fallback')})
 
@@ -131,7 +171,16 @@ def replay(run, payload):
     av = scn['steps'][0]['argv']
     av = av[av.index('--') + 1:] if '--' in av else [a for a in av if not a.startswith('-')]
     args = [{'arg': a, 'kind': '?', 'entry': os.path.normpath(os.path.join(scn.get('cwd', '/'), a)), 'expect': '?'} for a in av]
+    if case.get('args'):
+        args = case['args']
     meta = {'args': args, 'fallback': '--home-fallback' in scn['steps'][0]['argv']}
+    if case.get('plan'):
+        s2 = copy.deepcopy(scn)
+        s2['steps'][0]['plan'] = case['plan']
+        r2 = sandbox.execute(s2)
+        if r2.get('steps'):
+            judge_crash(run, scn, meta, before, case.get('crash_point'), res['steps'][0].get('nmut', 0), r2, 'replay', plan=case['plan'])
+    judge_crash(run, scn, meta, before, None, res['steps'][0].get('nmut', 0), res, 'replay')
     print('trash-put', [esc(a) for a in scn['steps'][0]['argv']], 'exit', res['steps'][0]['exit'], 'mutations', res['steps'][0].get('muts'))
     sweep(run, scn, meta)
     engine.run_monitors(run, 'put-monitor', [('put', 'x', res['steps'][0], {'scenario': scn})], 'put-discipline monitor rejects', 'payload-before-info', silent=True)
